@@ -24,6 +24,7 @@ CHECKS = {
     "C10": ("single", "exploration", "random timing configurations and operation sequences placed at, just before and just after every timer deadline and transmission instant of the run so far; the decoded offer timeline at the transport is judged by interval arithmetic from the property text", "DESIGN.md §6 C10"),
     "C11": ("single", "exploration", "random multi-entry Subscribe / StopSubscribe messages against servers in every lifecycle state with scripted listener decisions; the exact per-sender Ack/Nack sequence is predicted by the subscription model; multicast Subscribes are judged by an exact twin run", "DESIGN.md §6 C11"),
     "C12": ("single", "exploration", "FindService entries over all wildcard combinations at instants aligned with the offer lifecycle, unicast and multicast; every unicast offer must match a pending request inside its timing window and every request to a ready instance must be answered", "DESIGN.md §6 C12"),
+    "C13": ("single", "exploration", "1-4 watched filters, timing configurations incl. min=max windows and forced uniform extremes, rogue offers / stop-offers / short-TTL offers / reboots placed at and around every round instant; each round's entry set, content, destination and timing are predicted by an interval store model", "DESIGN.md §6 C13"),
     "C15": ("single", "exploration", "every queue_send call is recorded on the announcer instance and matched, per destination and in order, with the decoded entries leaving the transport; bursts up to 40 entries and requests placed exactly at collector deadlines", "DESIGN.md §6 C15"),
 }
 
